@@ -556,7 +556,7 @@ def replacer_cases(ctx):
   r = ctx.rng
   out = []
   alphabet = 'ab$. _xé"(=)\n'
-  for i in range(ctx.n(250, 3000)):
+  for i in range(ctx.n(160, 3000)):
     text = ''.join(r.choice(alphabet) for _ in range(r.choice([0, 1, 3, 6, 10, 16])))
     patches = []
     for _ in range(r.choice([0, 1, 1, 2, 3, 4])):
@@ -665,7 +665,7 @@ def correspond(ctx):
       continue
     rt, rcs = coq_renames(info['renames'])
     for tid, cid, old, new, reported in info['formulas']:
-      if len(t2) < ctx.n(160, 4000) and (old != new or len(t2) % 3 == 0):
+      if len(t2) < ctx.n(70, 4000) and (old != new or len(t2) % 3 == 0):
         t2.append('(cT %s %s %s %s %s)' % (zl(old), core.coq_list([coq_occ(o) for o in reported]), rt, rcs, zl(new)))
         src2.append((old, reported, info['renames'], new))
       tree = r['trees'].get(old)
@@ -679,8 +679,8 @@ def correspond(ctx):
         if old not in seen3:
           seen3.add(old)
           t3.append('(cP %s %s)' % (c16gen.coq(tree), zl(old)))
-        if len(t4) < ctx.n(90, 2500):
-          sch = coq_schema(info['schema'])
+        sch = coq_schema(info['schema']) if len(t4) < ctx.n(80, 2500) else None
+        if sch is not None and (sch in schemas or len(schemas) < ctx.n(6, 100000)):
           if sch not in schemas:
             schemas[sch] = 'sch_%d' % len(schemas)
           t4.append('(cE %s %s %s %s %s %s)' % (schemas[sch], zl(tid), c16gen.coq(tree), rt, rcs, zl(new)))
